@@ -104,6 +104,28 @@ func runWorker(p *Property, tier string, seed int64, from, to int, out string, v
 	if p.Setup != nil {
 		p.Setup(c)
 	}
+	if from == 0 {
+		// directed witnesses of repaired defects run with the first batch
+		for _, w := range witnessTable {
+			if w.Prop != p.ID {
+				continue
+			}
+			c.Begin(-1, map[string]interface{}{"witness_of_repaired_defect": w.Name})
+			msg := func() (m string) {
+				defer func() {
+					if r := recover(); r != nil {
+						m = fmt.Sprintf("panic: %v", r)
+					}
+				}()
+				return w.Run()
+			}()
+			if msg != "" {
+				c.Violation("witness:"+w.Name, "", "a defect recorded as fixed is back: "+msg)
+			}
+			c.Count("witnesses_of_repaired_defects_run", 1)
+			c.End()
+		}
+	}
 	for i := from; i < to; i++ {
 		p.RunCase(c, i)
 	}
